@@ -195,3 +195,37 @@ contract(
     uses=['bumble.l2cap:LeCreditBasedChannel.abort@callee', 'bumble.l2cap:ClassicChannel.abort@callee'],
     modifies=ABORT_MOD + ['ghost.odicts', 'ghost.idicts', 'ghost.pdicts', 'ghost.podicts'],
 )
+
+
+# ---------------------------------------------------------------------------
+# signalling dispatch: disconnection request / response reach the channel registered under the addressed CID
+# ---------------------------------------------------------------------------
+from contracts.c09_close import CL_CLOSE_NAMES, DISC_REQ, DISC_RSP, LE_CLOSE_NAMES, cl_close_post, gone, le_close_post  # noqa: E402
+from contracts.c09_tables import EFFECT_NAMES, closed_effect  # noqa: E402
+
+
+def dispatch_req_post(self, connection, request, old, ghost):
+    h = connection.handle
+    c0 = entry(old.self.channels, h, request.destination_cid)
+    if c0 is None:
+        # an unknown CID changes nothing
+        return [pool_same_except(ghost.chans, old.ghost.chans, []), pool_same_except(ghost.cdicts, old.ghost.cdicts, []), ghost.frames == old.ghost.frames] + wf(self, None) + [chan_inv(self), unshared(ghost)]
+    c = now(c0)
+    # the addressed channel is answered, closed, and gone from both tables
+    return [
+        ghost.frames == old.ghost.frames + 1,
+        closed(c),
+        c.disconnection_result is None or c.disconnection_result.st != PENDING,
+    ] + closed_effect(self, old.self, c, ghost, old.ghost) + wf(self, None) + [chan_inv(self), unshared(ghost)]
+
+
+contract(
+    'bumble.l2cap:ChannelManager.on_l2cap_disconnection_request',
+    prop='C09',
+    params=dict(self=MGR, connection=RefT('conns'), cid=Int, request=DISC_REQ),
+    ghost=HEAP,
+    requires=lambda self, ghost: wf(self, None) + [chan_inv(self), unshared(ghost)],
+    ensures=dispatch_req_post,
+    uses=['bumble.l2cap:ChannelManager.find_channel', 'bumble.l2cap:LeCreditBasedChannel.on_disconnection_request', 'bumble.l2cap:ClassicChannel.on_disconnection_request'],
+    modifies=CHAN_MOD,
+)
